@@ -243,7 +243,11 @@ class SpawnProcess(multiprocessing.context.SpawnProcess):
     @staticmethod
     def _finalize(logger_thread, q):
         q.put(None)
-        logger_thread.join()
+        # Do not `join` the logger thread here. This finalizer runs whenever the process
+        # object is garbage-collected, i.e. possibly in the middle of any allocation in any
+        # thread, in particular inside `threading`'s own bookkeeping at the start of a new
+        # thread, where it holds an internal (non-reentrant) lock that `Thread.join` needs
+        # as well: the program dead-locks. The logger thread ends by itself on the end marker.
 
     @staticmethod
     def handle_exception(exc):
